@@ -183,6 +183,8 @@ class Gen:
         nm = name or self.fresh("f")
         SI = self.d.SI
         shape = r.below(4)
+        if name and shape == 1:
+            shape = 0	# the corrected definition keeps the rejected one's signature (one argument)
         k = r.range(1, 9)
         cn, cv = self.cname()
         if shape == 0:
@@ -250,7 +252,7 @@ class Gen:
             opts.append("surplus-arg")
         if self.lists:
             opts.append("bad-cons")
-        opts += ["undefined", "bad-return", "bad-def", "bad-import", "bad-block"]
+        opts += ["undefined", "bad-return", "bad-def", "bad-def", "bad-import", "bad-block"]
         if self.funs:
             opts.append("bad-overload")
         # (a second definition with the signature of an existing function is NOT in the
@@ -322,12 +324,17 @@ class Gen:
             if x < bad_share:
                 self.b_any()
                 last_ctl = False
+                # bias: a control line (comment, blank, #int gc) right after a rejected form -
+                # the step that follows a rejection is where its leftovers are undone
+                if r.chance(1, 3):
+                    self.c_any()
+                    last_ctl = True
             elif x < bad_share + 8 and not last_ctl:
                 self.c_any()
                 last_ctl = True
             else:
                 last_ctl = False
-                if self.pending and r.chance(1, 2):
+                if self.pending and r.chance(3, 4):
                     self.g_fun(self.pending.pop(0))
                     continue
                 k = r.weighted([("out", 30), ("assign", 12), ("var", 8), ("const", 8), ("fun", 10), ("big", 6),
